@@ -6,6 +6,7 @@ import (
 	"go/types"
 	"math/big"
 	"sort"
+	"strings"
 
 	"golang.org/x/tools/go/ssa"
 )
@@ -80,6 +81,7 @@ func (X *Exec) execInstr(fr *Frame, ins ssa.Instruction, st *State) {
 		m := X.val(fr, i.Map)
 		mt := i.Map.Type().Underlying().(*types.Map)
 		X.oblige(st, "nil", "", "assignment to entry in nil map "+i.Map.Name(), i.Pos(), ts.Not(ts.Eq(m.T, ts.IntLit(0))))
+		X.applyUpdateHooks(fr, st, i, m)
 		X.mapStore(st, mt, m.T, X.asTerm(st, X.val(fr, i.Key), mt.Key()), X.asTerm(st, X.val(fr, i.Value), mt.Elem()))
 	case *ssa.Slice:
 		X.execSlice(fr, i, st)
@@ -1215,6 +1217,45 @@ func (X *Exec) applyStoreHooks(fr *Frame, st *State, i *ssa.Store, addr *Addr, v
 		for _, c := range cs.Requires {
 			t := X.evalClause(fr, st, c, vars)
 			X.oblige(st, "callsite", c.Label, fmt.Sprintf("at assignment to .%s: %s", pat[6:], c.Src), i.Pos(), t)
+		}
+		for _, u := range cs.Updates {
+			srt, ok := X.ghostTypes[u.Name]
+			if !ok {
+				panic("update of undeclared ghost " + u.Name)
+			}
+			sc := X.clauseCtx(fr, st, vars, "update "+u.Name)
+			X.setHeap(st, "GH|"+u.Name, srt, sc.evalGhost(u.Expr, srt))
+		}
+	}
+}
+
+// applyUpdateHooks: `onupdate <name>` clauses: protocol clauses evaluated when the function executes m[key] = value on
+// the map variable or field of that name (`recv` = the map, `key`, `value`), before the update.
+func (X *Exec) applyUpdateHooks(fr *Frame, st *State, i *ssa.MapUpdate, m *Val) {
+	fs := X.specOf(fr)
+	if fs == nil || len(fs.Callsites) == 0 {
+		return
+	}
+	name := srcName(i.Map)
+	if k := strings.LastIndex(name, "."); k >= 0 {
+		name = name[k+1:]
+	}
+	pat := "update:" + name
+	for _, cs := range fs.Callsites {
+		if cs.Pattern != pat {
+			continue
+		}
+		cs.Hits++
+		vars := map[string]*Val{"recv": m}
+		if kv := X.val(fr, i.Key); kv.T != nil {
+			vars["key"] = kv
+		}
+		if vv := X.val(fr, i.Value); vv.T != nil {
+			vars["value"] = vv
+		}
+		for _, c := range cs.Requires {
+			t := X.evalClause(fr, st, c, vars)
+			X.oblige(st, "callsite", c.Label, fmt.Sprintf("at %s[...] = ...: %s", name, c.Src), i.Pos(), t)
 		}
 		for _, u := range cs.Updates {
 			srt, ok := X.ghostTypes[u.Name]
